@@ -770,8 +770,13 @@ func (r *Router) processEvent(ev *types.Event, reqID interface{}) error {
 			}
 
 			// If the span was kept, we want to generate a probe that we'll forward
-			// to a peer IF this span would have been forwarded.
-			ev.Data.MetaRefineryProbe.Set(true)
+			// to a peer IF this span would have been forwarded. The kept span
+			// itself is already queued for upstream transmission, so the probe
+			// must be a copy: marking or re-addressing the original would change
+			// what is sent to Honeycomb.
+			probe := *ev
+			probe.Data.MetaRefineryProbe.Set(true)
+			ev = &probe
 			isProbe = true
 		}
 	}
